@@ -500,7 +500,7 @@ def random_history(backend, seed, steps, focus, tmp):
 def main():
     with open(sys.argv[1]) as f:
         spec = json.load(f)
-    if spec.get("mode") in ("c01", "c06", "c18", "c06del", "c07", "c12", "c14"):
+    if spec.get("mode") in ("c01", "c06", "c18", "c06del", "c06mig", "c07", "c12", "c14"):
         json.dump(extra_main(spec), sys.stdout, default=str)
         return
     tmp0 = tempfile.mkdtemp(prefix="aw-storage-rt-")
@@ -753,6 +753,41 @@ def c06_deletes(tmp, n=150):
     return bad
 
 
+def c06_after_migration(seed, tmp):
+    """The store is created next to a legacy database: what the migration buffered is part of the open transaction, so it
+    has to be counted (or flushed) - afterwards, as always, no more than the documented ~50 event writes may be invisible to
+    another connection, and the statement counter must cover everything that is pending."""
+    from aw_core.models import Event
+    from aw_datastore.storages import PeeweeStorage, SqliteStorage
+    rng = random.Random(seed)
+    os.environ["XDG_DATA_HOME"] = tmp
+    bad = []
+    n_legacy = rng.choice([1, 7, 30, 40, 49])
+    pw = PeeweeStorage(testing=True)
+    try:
+        pw.create_bucket("b", "t", "c", "h", dt(BASE).isoformat())
+        pw.insert_many("b", [Event(timestamp=dt(BASE + i * MS), duration=timedelta(0), data={"i": i}) for i in range(n_legacy)])
+    finally:
+        pw.db.close()
+    sq = SqliteStorage(testing=True)          # default path, new file: the migration runs inside __init__
+    try:
+        path = sq.conn.execute("PRAGMA database_list").fetchall()[0][2]
+        n_more = rng.choice([0, 10, 50])
+        for i in range(n_more):
+            sq.insert_one("b", Event(timestamp=dt(BASE + (1000 + i) * MS), duration=timedelta(0), data={}))
+        seen = committed_dump(path, "sqlite")
+        visible = len(seen["events"])
+        total = n_legacy + n_more
+        if sq.conn.in_transaction and (total - visible) > sq.num_uncommitted_statements:
+            bad.append(f"{total - visible} event writes are pending but the statement counter says {sq.num_uncommitted_statements} "
+                       f"({n_legacy} migrated in __init__, then {n_more} inserted)")
+        if total - visible > 60:
+            bad.append(f"{total - visible} of {total} event writes are invisible to another connection (documented bound: about 50)")
+    finally:
+        sq.conn.close()
+    return bad
+
+
 # =========================================================================================================
 # C07: heartbeat ingestion through the store equals heartbeat_reduce
 # =========================================================================================================
@@ -964,6 +999,8 @@ def extra_main(spec):
                     bad = c06(be, seed, spec.get("steps", 60), tmp, trickle=True) if be == "sqlite" else []
                 elif mode == "c06del":
                     bad = c06_deletes(tmp) if be == "sqlite" and k == 0 else []
+                elif mode == "c06mig":
+                    bad = c06_after_migration(seed, tmp) if be == "sqlite" else []
                 elif mode == "c07":
                     bad = c07(be, seed, spec.get("n", 25), tmp)
                 elif mode == "c12":
